@@ -504,6 +504,9 @@ def check_C09(cx):
                     ("codec-string", cfg({"W1": W("MS", "MS"), "W2": W("MS"), "W3": W("MD")}, qsize=2, until=True)),
                     ("codec-string-sync", cfg({"W1": W("MS", "MS"), "W2": W("MS"), "W3": W("MD")}, qsize=0))]:
         random_runs(cx, name, c, n, sizes=[x for x in NZ_SIZES if x <= 4096], traced=False, codec=True)
+    for name, c in [("lfcodec", cfg({"W1": W("MD", "MD"), "W2": W("MD"), "W3": W("MD")}, qsize=2, until=True)),
+                    ("lfcodec-sync", cfg({"W1": W("MD", "MD"), "W2": W("MD"), "W3": W("MD")}, qsize=0))]:
+        random_runs(cx, name, c, n, sizes=[x for x in NZ_SIZES if x <= 4096], traced=False, codec="lf")
     return finish(cx)
 
 
